@@ -3,7 +3,7 @@ import json
 
 from ..core import MachineryFailure, load_records, model_check, parse_dump, run_driver, validate_shards
 from ..gens.c07 import FIELDS
-from .common import run_value_machine
+from .common import run_harvest, run_value_machine
 
 FINISH = dict(rule="R1: TLC enumerates every string over the 16-character delimiter alphabet up to the stated length "
                    "and checks ImplUrl!SplitUrl/SplitNetloc/Str against Rfc3986!AppendixB/SplitAuthority; R2: every "
@@ -54,3 +54,4 @@ def run(out, sc, tier, seed):
         raise MachineryFailure("TLC consumed a different number of records than were produced")
     out.add_trace_results("ctor", results, recs)
     run_value_machine(out, sc, "C07", tier, fields=FIELDS)
+    run_harvest(out, sc, "C07")
